@@ -60,27 +60,48 @@ M = [
  ("desync_deref_outside", "src/desync.rs", "        desync(&self.queue, move || {\n            let data = data.0;\n            job(unsafe { &mut *data });\n        })", "        let d = data.0; let r = unsafe { &mut *d }; let _ = r;\n        desync(&self.queue, move || {\n            let data = data.0;\n            job(unsafe { &mut *data });\n        })", "C14"),
 ]
 PROPS = ["C%02d" % i for i in range(1, 18)]
-sel = sys.argv[1] if len(sys.argv) > 1 else ""
+# usage: tools/mutants.py [name-substring] [-j N] [--all]     (default: only the properties each mutant is expected to break, 6 at a time)
+import concurrent.futures
+args = [a for a in sys.argv[1:]]
+J = 6
+if "-j" in args:
+    J = int(args[args.index("-j") + 1]); del args[args.index("-j"):args.index("-j") + 2]
+ALLP = "--all" in args
+args = [a for a in args if a != "--all"]
+sel = args[0] if args else ""
+os.makedirs("/tmp/gen_mut", exist_ok=True)
+
+def run_one(m):
+    (name, f, old, new, expect) = m
+    wt = "/tmp/mut_" + name
+    subprocess.run(["git", "-C", "/repo", "worktree", "remove", "--force", wt], stdout=subprocess.DEVNULL, stderr=subprocess.DEVNULL)
+    subprocess.run(["git", "-C", "/repo", "worktree", "add", "-q", "--detach", wt, "HEAD"], check=True)
+    try:
+        p = os.path.join(wt, f)
+        s = open(p).read()
+        if s.count(old) < 1:
+            return name, None, "PATTERN NOT FOUND"
+        open(p, "w").write(s.replace(old, new, 1))
+        viol, und = [], []
+        exp = expect.split()
+        for P in (PROPS if ALLP else exp):
+            r = subprocess.run(["./check", P, "--repo", wt], cwd="/verif", stdout=subprocess.PIPE, stderr=subprocess.PIPE, text=True, env=dict(os.environ, VERIF_GEN="/tmp/gen_mut_" + name))
+            if r.returncode == 1: viol.append(P)
+            elif r.returncode == 2: und.append(P + ":" + r.stdout.strip().split("\n")[-1][:140])
+        missed = [e for e in exp if e not in viol]
+        extra = [v for v in viol if v not in exp]
+        line = "%-34s expect=%-10s VIOLATION=%s %s%s" % (name, expect, ",".join(viol) or "-", ("MISSED=" + ",".join(missed) + " ") if missed else "", ("UNDECIDED=" + str(und[:1]) + ("(+%d)" % (len(und) - 1) if len(und) > 1 else "")) if und else "")
+        return name, {"violations": viol, "undecided": und, "expected": exp}, line
+    finally:
+        subprocess.run(["git", "-C", "/repo", "worktree", "remove", "--force", wt], stdout=subprocess.DEVNULL, stderr=subprocess.DEVNULL)
+        subprocess.run(["rm", "-rf", "/tmp/gen_mut_" + name])
+
 results = {}
-for (name, f, old, new, expect) in M:
-    if sel and sel not in name:
-        continue
-    subprocess.run(["git", "-C", "/repo", "worktree", "remove", "--force", WT], stdout=subprocess.DEVNULL, stderr=subprocess.DEVNULL)
-    subprocess.run(["git", "-C", "/repo", "worktree", "add", "-q", "--detach", WT, "HEAD"], check=True)
-    p = os.path.join(WT, f)
-    s = open(p).read()
-    if s.count(old) < 1:
-        print("%-34s PATTERN NOT FOUND" % name); continue
-    open(p, "w").write(s.replace(old, new, 1))
-    viol, und = [], []
-    for P in PROPS:
-        r = subprocess.run(["./check", P, "--repo", WT], cwd="/verif", stdout=subprocess.PIPE, stderr=subprocess.PIPE, text=True, env=dict(os.environ, VERIF_GEN="/tmp/gen_mut"))
-        if r.returncode == 1: viol.append(P)
-        elif r.returncode == 2: und.append(P + ":" + r.stdout.strip().split("\n")[-1][:140])
-    exp = expect.split()
-    missed = [e for e in exp if e not in viol]
-    extra = [v for v in viol if v not in exp]
-    print("%-34s expect=%-10s VIOLATION=%s %s%s" % (name, expect, ",".join(viol) or "-", ("MISSED=" + ",".join(missed) + " ") if missed else "", ("UNDECIDED=" + str(und[:1]) + ("(+%d)" % (len(und) - 1) if len(und) > 1 else "")) if und else ""), flush=True)
-    results[name] = {"violations": viol, "undecided": und, "expected": exp}
-subprocess.run(["git", "-C", "/repo", "worktree", "remove", "--force", WT], stdout=subprocess.DEVNULL, stderr=subprocess.DEVNULL)
+with concurrent.futures.ThreadPoolExecutor(max_workers=J) as ex:
+    for name, res, line in ex.map(run_one, [m for m in M if not sel or sel in m[0]]):
+        print(line if res is not None else "%-34s %s" % (name, line), flush=True)
+        if res is not None:
+            results[name] = res
 json.dump(results, open("/tmp/gen_mut/mutants_result.json", "w"), indent=1)
+n_missed = sum(1 for r in results.values() if any(e not in r["violations"] for e in r["expected"]))
+print("mutants: %d run, %d with an expected property not reported as a violation" % (len(results), n_missed))
